@@ -136,12 +136,13 @@ Definition lstep (a : lstate) (nc : N * bool) : lstate :=
   let st' := step (m, k) c in
   let depth := length k in
   if normal_class m then
-    match l_cust a with
-    | Some d =>
+    match fst st', l_cust a with
+    | Com, _ => mkL st' (l_decl a) (l_dash a) (l_cust a) (l_ok a)     (* a comment opens: nothing changes *)
+    | _, Some d =>
         if ((c =? 59) && Nat.eqb depth d) || ((c =? 125) && Nat.eqb depth d)
         then mkL st' true false None (l_ok a)
         else mkL st' false false (Some d) (l_ok a)
-    | None =>
+    | _, None =>
         let ok := l_ok a && (negb (c =? 10) || last) in
         if l_decl a && l_dash a && (c =? 45) then mkL st' false false (Some depth) ok
         else if l_decl a && negb (l_dash a) && (c =? 45) then mkL st' true true None ok
